@@ -159,6 +159,101 @@ pub fn rfc3339_ns(s: &str) -> Option<i128> {
     Some(secs * 1_000_000_000 + frac)
 }
 
+/// The instant of a timestamp in the form RFC 3339 itself defines (four-digit year, upper-case T, "Z" or
+/// a numeric offset of at most 23:59 other than -00:00, "." and 1..9 fraction digits, no leap second,
+/// a date that exists), inside the range the library's timestamp type covers. None for everything else,
+/// including forms many readers tolerate.
+pub fn rfc3339_strict_ns(s: &str) -> Option<i128> {
+    let b = s.as_bytes();
+    if b.len() < 20 || !b[..4].iter().all(|c| c.is_ascii_digit()) || b[4] != b'-' || b[7] != b'-' || b[10] != b'T' || b[13] != b':' || b[16] != b':' {
+        return None;
+    }
+    let num = |a: usize| -> Option<i64> { if b[a].is_ascii_digit() && b[a + 1].is_ascii_digit() { Some(((b[a] - b'0') * 10 + (b[a + 1] - b'0')) as i64) } else { None } };
+    let year: i64 = s[..4].parse().ok()?;
+    let (month, day, hh, mm, ss) = (num(5)?, num(8)?, num(11)?, num(14)?, num(17)?);
+    let leap = year % 4 == 0 && (year % 100 != 0 || year % 400 == 0);
+    let dim = [31, if leap { 29 } else { 28 }, 31, 30, 31, 30, 31, 31, 30, 31, 30, 31];
+    if !(1..=12).contains(&month) || day < 1 || day > dim[(month - 1) as usize] || hh > 23 || mm > 59 || ss > 59 {
+        return None;
+    }
+    let mut j = 19;
+    if b[j] == b'.' {
+        j += 1;
+        let fs = j;
+        while j < b.len() && b[j].is_ascii_digit() {
+            j += 1;
+        }
+        if j == fs || j - fs > 9 {
+            return None;
+        }
+    }
+    match b.get(j)? {
+        b'Z' if j + 1 == b.len() => {}
+        b'+' | b'-' if j + 6 == b.len() && b[j + 3] == b':' => {
+            let (oh, om) = (num(j + 1)?, num(j + 4)?);
+            if oh > 23 || om > 59 || (b[j] == b'-' && oh == 0 && om == 0) {
+                return None;
+            }
+        }
+        _ => return None,
+    }
+    let ns = rfc3339_ns(s)?;
+    const MIN: i128 = -377_705_023_201 * 1_000_000_000;
+    const MAX: i128 = 253_402_207_200 * 1_000_000_000 + 999_999_999;
+    if (MIN..=MAX).contains(&ns) { Some(ns) } else { None }
+}
+
+/// The registered claims of a JSON object as a reader of the PASETO claims rules sees them, when the
+/// text leaves no room for interpretation: an object without repeated member names whose registered
+/// members are strings (or null), the time members in the form RFC 3339 defines. None otherwise.
+pub fn reg_from_json_strict(bytes: &[u8]) -> Option<crate::backend::RegSpec> {
+    struct TopKeys(Vec<String>);
+    impl<'de> serde::Deserialize<'de> for TopKeys {
+        fn deserialize<D: serde::Deserializer<'de>>(d: D) -> Result<Self, D::Error> {
+            struct V;
+            impl<'de> serde::de::Visitor<'de> for V {
+                type Value = TopKeys;
+                fn expecting(&self, f: &mut std::fmt::Formatter) -> std::fmt::Result {
+                    f.write_str("an object")
+                }
+                fn visit_map<A: serde::de::MapAccess<'de>>(self, mut m: A) -> Result<TopKeys, A::Error> {
+                    let mut keys = Vec::new();
+                    while let Some(k) = m.next_key::<String>()? {
+                        m.next_value::<serde::de::IgnoredAny>()?;
+                        keys.push(k);
+                    }
+                    Ok(TopKeys(keys))
+                }
+            }
+            d.deserialize_map(V)
+        }
+    }
+    let keys: TopKeys = serde_json::from_slice(bytes).ok()?;
+    let mut sorted = keys.0.clone();
+    sorted.sort();
+    sorted.dedup();
+    if sorted.len() != keys.0.len() {
+        return None;
+    }
+    let v: serde_json::Value = serde_json::from_slice(bytes).ok()?;
+    let obj = v.as_object()?;
+    let text = |n: &str| -> Option<Option<String>> {
+        match obj.get(n) {
+            None | Some(serde_json::Value::Null) => Some(None),
+            Some(serde_json::Value::String(s)) => Some(Some(s.clone())),
+            _ => None,
+        }
+    };
+    let time = |n: &str| -> Option<Option<crate::backend::Ns>> {
+        match obj.get(n) {
+            None | Some(serde_json::Value::Null) => Some(None),
+            Some(serde_json::Value::String(s)) => Some(Some(crate::backend::Ns(rfc3339_strict_ns(s)?))),
+            _ => None,
+        }
+    };
+    Some(crate::backend::RegSpec { iss: text("iss")?, sub: text("sub")?, aud: text("aud")?, exp: time("exp")?, nbf: time("nbf")?, iat: time("iat")?, jti: text("jti")? })
+}
+
 pub fn codec_step(w: &mut World, case: &CodecCase) {
     let bk = Bk::V4;
     w.stats.evaluations += 1;
